@@ -45,6 +45,16 @@ def main():
                 for x in ax:
                     chk.trusted.append("axiom " + x)
         chk.trusted.append("Coq 8.16.1 kernel incl. vm_compute (no native_compute) and primitive floats/ints")
+        if a.tier == "thorough" and os.path.exists(os.path.join(common.COQ, "Properties", a.cid + ".vo")):
+            # independent re-check of the compiled property file and everything it depends on
+            import subprocess
+            p = subprocess.run(["timeout", "3000", "coqchk", "-Q", common.COQ, "SSP", "-o", "SSP.Properties." + a.cid],
+                               capture_output=True, text=True)
+            okc = p.returncode == 0 and "Modules were successfully checked" in p.stdout
+            tail = p.stdout[p.stdout.find("CONTEXT SUMMARY"):] if "CONTEXT SUMMARY" in p.stdout else (p.stdout + p.stderr)[-500:]
+            ax = [l.strip() for l in tail.splitlines() if l.startswith("    ") and not any(k in l for k in ("Int63", "PrimFloat", "Uint63"))]
+            chk.oblige("coqchk (independent checker) accepts Properties/%s.vo and its dependencies" % a.cid, okc,
+                       "axioms besides primitive ints/floats: " + ", ".join(ax))
         # 2..4 property-specific ties, correspondence, oracle
         if a.replay:
             mod.replay(chk, json.load(open(a.replay)))
